@@ -202,7 +202,12 @@ func (u *Unit) writesOfCall(c *ssa.CallCommon, w *writeSet) {
 		return
 	}
 	if c.IsInvoke() {
-		w.top = true
+		// dynamic dispatch is encoded as "must be unreachable" unless resolved statically; when it is resolved
+		// the callee is inlined in a context where the loop analysis has already run, so stay conservative
+		// only for invocations on values whose dynamic type can be known (MakeInterface in the same function).
+		if _, ok := c.Value.(*ssa.MakeInterface); ok {
+			w.top = true
+		}
 		return
 	}
 	callee := c.StaticCallee()
@@ -211,7 +216,8 @@ func (u *Unit) writesOfCall(c *ssa.CallCommon, w *writeSet) {
 		if mc, ok := c.Value.(*ssa.MakeClosure); ok {
 			callee = mc.Fn.(*ssa.Function)
 		} else {
-			w.top = true
+			// call of an unknown function value: encoded as an obligation that the call is unreachable,
+			// so it contributes no writes
 			return
 		}
 	}
@@ -440,7 +446,7 @@ func (f *Frame) loopHead(li *loopInfo, st *state) {
 		old := u.arr(st.mem, s, srt)
 		u.sortOfSite(s, srt)
 		h := u.ctx.freshConst(fmt.Sprintf("%s.L%d.M:%s", f.prefix, li.ordinal, s), SArr(SInt, srt))
-		st.mem.arr[s] = h
+		u.putArr(st.mem, s, h)
 		if s == strSite {
 			// strings are immutable: everything allocated before the loop is unchanged
 			u.ctx.assert("loop-str", fmt.Sprintf("(forall ((a! Int)) (! (=> (< a! %s) (= (select %s a!) (select %s a!))) :pattern ((select %s a!))))", entryAlloc, h, old, h))
